@@ -2,7 +2,8 @@
    Only statements, each closed by [exact], each followed by Print Assumptions. *)
 From stdpp Require Import gmap.
 From Coq Require Import NArith.
-From Synnax Require Import Aspen.Membership Aspen.MembershipProofs Aspen.MembershipConv.
+From Synnax Require Import Aspen.Membership Aspen.MembershipProofs Aspen.MembershipConv
+  Monitors.Mon_C12 Aspen.MembershipMonitor.
 Local Open Scope N_scope.
 
 (* (1) No step of any kind — exchange, tick, state change, restart — and no sequence of
@@ -75,6 +76,21 @@ Theorem C12_strict_ack_refuted :
   (exchange true f7_vi f7_vj).2 <> join f7_vj f7_vi.
 Proof. exact strict_exchange_refuted. Qed.
 Print Assumptions C12_strict_ack_refuted.
+
+(* The decidable monitor used on the implementation's observations accepts every run of the
+   model: its per-step clause (nothing regresses; a restart brings a strictly newer
+   generation) with no hypothesis at all, its convergence clause from every coherent
+   cluster. Together with the correspondence (implementation = model on the explored
+   cases) this means the monitor cannot raise a false alarm there. *)
+Theorem C12_monitor_steps_sound : forall strict ops c,
+  ok_steps c (combine ops (model_trace strict c ops)) = true.
+Proof. exact monitor_steps_sound. Qed.
+Print Assumptions C12_monitor_steps_sound.
+
+Theorem C12_monitor_conv_sound : forall c ops,
+  Coh c -> conv_ok c ops (run false c ops) = true.
+Proof. exact monitor_conv_sound. Qed.
+Print Assumptions C12_monitor_conv_sound.
 
 (* Non-vacuity: a coherent three-node cluster whose nodes know disjoint subsets, with a
    covering exchange list; hypotheses of C12_converge are met and the result is
